@@ -98,6 +98,20 @@ def explore(tier, seed):
         tequal += not found
         for kind, detail in found:
             cands.setdefault(f"seq|{'>'.join(ks)}|{kind}", ({"sequence": True, "seq": list(ks), "kind": kind}, detail))
+    # the whole default set: one invocation vs the chain of single-codemod invocations in the executed order
+    druns, dhit, dwall = seqspace.explore_default_set(tier, seed)
+    dlen = 0
+    for i, rec in enumerate(druns):
+        dlen = len(rec["seq"])
+        states.add(core.tree_state_id(rec["files"]))
+        for t in [rec["batch"]["tree"]] + [c["tree"] for c in rec["chain"]]:
+            states.add(core.tree_state_id({k: v for k, v in t.items() if isinstance(v, bytes)}))
+        for kind, detail in judge(rec):
+            if kind.startswith("result-"):
+                # name the codemod, not its position in the (registry dependent) sequence
+                idx = int(kind.split("-")[1]) - 1
+                kind = f"result-differs:{rec['seq'][idx]}"
+            cands.setdefault(f"seq|default-set|{kind}", ({"sequence": True, "default_set": i, "kind": kind}, detail))
     known_open = {k["signature"] for k in core.load_known() if k["property"] == PROP and k["status"] == "open"}
     new = [(sig, c) for sig, c in sorted(cands.items()) if sig not in known_open]
     repro = drive.confirm_replays("cmverif.checks.c09", [c[0] for _, c in new])
@@ -113,7 +127,8 @@ def explore(tier, seed):
     changed_by_both = sum(1 for r in pairs.values() if r["chain"][0]["tree"] != r["files"] and r["chain"][1]["tree"] != r["chain"][0]["tree"])
     coverage = {
         "states": len(states),
-        "transitions": 3 * len(pairs) + 4 * len(triples),
+        "transitions": 3 * len(pairs) + 4 * len(triples) + len(druns) * (dlen + 1),
+        "default_set_histories": {"runs": len(druns), "codemods_in_sequence": dlen, "cache_hit": dhit, "wall_s": round(dwall, 1)},
         "traces_validated_against_impl": len(pairs) + len(triples) + 6 * len(new),
         "ordered_triples": len(triples),
         "triples_with_equal_outcome": tequal,
@@ -138,6 +153,14 @@ def explore(tier, seed):
 
 
 def replay(rp):
+    if "default_set" in rp:
+        rec = seqspace.default_set_job(("--max-workers", "4") if rp["default_set"] else ())
+        found = []
+        for kind, detail in judge(rec):
+            if kind.startswith("result-"):
+                kind = f"result-differs:{rec['seq'][int(kind.split('-')[1]) - 1]}"
+            found.append((kind, detail))
+        return (rp["kind"] not in {k for k, _ in found}), "\n".join(f"{k}: {d}" for k, d in found) or "one run == chain of single runs"
     rec = seqspace.seq_job_cli(tuple(rp["seq"])) if "seq" in rp else seqspace.pair_job_cli(tuple(rp["pair"]))
     found = list(judge(rec))
     return (rp["kind"] not in {k for k, _ in found}), "\n".join(f"{k}: {d}" for k, d in found) or "one run == chain of single runs"
